@@ -236,7 +236,7 @@ def _run_case(rng, res, idx, maxlen):
             _drop_hooks(s.model, old)
             with warnings.catch_warnings():
                 warnings.simplefilter('ignore')
-                s.p = KFACPreconditioner(s.model, **s.kw)
+                s.p = KFACPreconditioner(s.model, **(kh.perturbed_kwargs(s.kw, rng) if rng.random() < 0.4 else s.kw))
             if not compute and (s.p.steps if False else sd['steps']) % s.ref.val('I') != 0:
                 compute = True  # compute_inverses=False is only valid when the next step refreshes
             s.p.load_state_dict(sd, compute_inverses=compute)
